@@ -431,6 +431,12 @@ class Engine:
             return SV(sym.mk_ref(r), hint=frozenset(['dict']))
         if name == 'objdict.update':
             ov = a[0].payload
+            if isinstance(a[1], OpaqueV) and a[1].tag == '__dict__':
+                # x.__dict__.update(y.__dict__): every instance attribute the class table knows is copied from y to x
+                src = a[1].payload
+                for f in sorted(self.instance_fields):
+                    it.heap.put(f, sym.r_of(ov.t), it.heap.get(f, sym.r_of(src.t)))
+                return NONE
             for kt, vt in it.concrete_items(a[1], n, fr):
                 it.heap.put(sym.py_of_val(kt), sym.r_of(ov.t), vt)
             return NONE
